@@ -1,4 +1,4 @@
 SPECIFICATION TSpec
-INVARIANTS TxGasT TxBalancesT FailedTxLeavesNothingT BlockGasT InvalidTxInvalidatesBlockT NoTxErrT
+INVARIANTS GeneratorOKT TxGasT TxBalancesT FailedTxLeavesNothingT BlockGasT InvalidTxInvalidatesBlockT NoTxErrT
 POSTCONDITION TraceAccepted
 CHECK_DEADLOCK FALSE
